@@ -4009,8 +4009,8 @@ def add_measures(part):
 
             part.add(
                 Measure(number=mcounter, name=str(mcounter)),
-                int(measure_start),
-                int(measure_end),
+                int(np.round(measure_start)),
+                int(np.round(measure_end)),
             )
 
             # if measure exists but was not at measure_start,
